@@ -110,7 +110,7 @@ void HttpServer::serve(Socket client)
 					{
 						Array<String> parts = range.substr(6).split('-');
 						int begin = parts[0];
-						int end = parts.length() > 1 ? (int)parts[1] : 0; // "bytes=5" (no dash): like "bytes=5-"
+						int end = parts.length() > 1 && parts[1].ok() ? (int)parts[1] : -1; // "bytes=5-" and "bytes=5" (no dash): up to the end
 						response.setCode(206);
 						response.setHeader("Content-Range", "+");
 						response.putFile(file.path(), begin, end);
